@@ -44,7 +44,25 @@ def table(prog, fn, inline_local=True):
             ty_at[bi] = ra[0].split("::")[-1]
     rows = set()
     unknown = []
-    se = SymExec(prog, b, max_paths=400)
+    def _opt_model(se_, st, t, cal, args, site):
+        # Option tests and combinators in canonical form: a branch on the variant of the tested value, so that
+        # `if b.is_some() { b } else { a }`, `match b { Some(_) => b, None => a }` and `b.or(a)` give the same rows
+        if not (cal.startswith(("std::option::Option::", "core::option::Option::")) and cal.count("::") <= 4) or not args:
+            return None
+        nm = cal.rsplit("::", 1)[-1]
+        d = ("discr", args[0])
+        some = (("switch", d, ("eq", 1), "isize", site),)
+        none = (("switch", d, ("eq", 0), "isize", site),)
+        if nm == "is_some":
+            return [(some, ("c", "bool", 1), False), (none, ("c", "bool", 0), False)]
+        if nm == "is_none":
+            return [(some, ("c", "bool", 0), False), (none, ("c", "bool", 1), False)]
+        if nm == "or" and len(args) == 2:
+            return [(some, args[0], False), (none, args[1], False)]
+        if nm == "and" and len(args) == 2:
+            return [(some, args[1], False), (none, ("adt", "std::option::Option::None", ()), False)]
+        return None
+    se = SymExec(prog, b, max_paths=400, call_model=_opt_model)
     for p in se.paths():
         if "__diverged__" in p.env:
             continue
